@@ -506,7 +506,7 @@ def expand_helpers(repo, rel: str, expr: ast.AST, depth: int = 0) -> ast.AST:
 
 
 def inline_reaching(cfg: CFG, at: ast.AST, expr: ast.AST, depth: int = 0, comprehension_scope: Set[str] = frozenset(),
-                    keep: Set[str] = frozenset()) -> ast.AST:
+                    keep: Set[str] = frozenset(), max_depth: int = 4) -> ast.AST:
     """ a copy of `expr` (evaluated at statement `at`) in which a local name is replaced by the value of its
         *unique reaching definition* when that is a plain `name = value` assignment, recursively resolved at the
         defining statement.  Unlike inline_locals this follows names that are re-bound elsewhere in the function. """
@@ -536,7 +536,7 @@ def inline_reaching(cfg: CFG, at: ast.AST, expr: ast.AST, depth: int = 0, compre
             return node
 
         def visit_Name(self, node: ast.Name) -> ast.AST:
-            if not isinstance(node.ctx, ast.Load) or node.id in self.bound or node.id in keep or depth > 4:
+            if not isinstance(node.ctx, ast.Load) or node.id in self.bound or node.id in keep or depth > max_depth:
                 return node
             defs = cfg.reaching_defs(node.id, here)
             if defs == {-1}:
@@ -555,7 +555,7 @@ def inline_reaching(cfg: CFG, at: ast.AST, expr: ast.AST, depth: int = 0, compre
                 value = stmt.value
             if value is None:
                 return node
-            return inline_reaching(cfg, stmt, value, depth + 1, frozenset(self.bound), keep)
+            return inline_reaching(cfg, stmt, value, depth + 1, frozenset(self.bound), keep, max_depth)
     return ast.fix_missing_locations(Inliner().visit(clone(expr)))
 
 
@@ -600,13 +600,14 @@ def nnf_equiv(left, right, limit: int = 10):
     return True, None
 
 
-def resolved_facts(cfg: CFG, node: ast.AST, repo=None, rel: Optional[str] = None, fresh_only: bool = False):
+def resolved_facts(cfg: CFG, node: ast.AST, repo=None, rel: Optional[str] = None, fresh_only: bool = False,
+                   max_depth: int = 4):
     """ path facts of node with locals replaced by their reaching definitions (at the node) and, when repo/rel are
         given, one-statement helpers expanded; returned as one NNF conjunction """
     parts = []
     for expr, truth in path_facts(cfg, node, fresh_only=fresh_only):
         anchor = expr if hasattr(expr, "_parent") else node
-        full = inline_reaching(cfg, anchor, expr)
+        full = inline_reaching(cfg, anchor, expr, max_depth=max_depth)
         if repo is not None and rel is not None:
             full = expand_helpers(repo, rel, full)
         parts.append((full, truth))
@@ -672,3 +673,27 @@ def closure_value(func: ast.AST, name: str) -> Optional[ast.AST]:
                                                                          ast.GeneratorExp, ast.Lambda)):
         return values[0]
     return None
+
+
+def nnf_literals(form) -> Set[Tuple[str, bool]]:
+    """ every (text, truth) literal occurring anywhere in an NNF form """
+    if form[0] == "lit":
+        return {(form[1], form[2])}
+    out: Set[Tuple[str, bool]] = set()
+    for sub in form[1]:
+        out |= nnf_literals(sub)
+    return out
+
+
+def deciding_test(cfg: CFG, node: ast.AST) -> Optional[Tuple[int, str]]:
+    """ (test node, label) of the innermost test dominating `node` one of whose edges is the only way to it """
+    target = cfg.n(node)
+    best = None
+    for cand in cfg.nodes:
+        if cand.kind != "test" or cand.id == target or not cfg.dominates(cand.id, target):
+            continue
+        for label in ("T", "F"):
+            if target not in cfg.reach([cfg.entry], edges_excluded=[(cand.id, label)]):
+                if best is None or cfg.dominates(best[0], cand.id):
+                    best = (cand.id, label)
+    return best
